@@ -68,7 +68,8 @@ CONSTANTS Scenarios,    \* set of [kind, N, C, k, p]; C = 0: chunksize=None,
                         \*   k = 0: patch_centers given, k > 0: patch_num=k,
                         \*   p = 0: probe_size left at its default (-1)
           Seeds,        \* abstract seeds (positive); the generator starts with seed 1
-          CallSizes,    \* sizes of direct calls gen(n) / generate_dataframe(n)
+          CallSizes,    \* sizes of direct calls gen(n)
+          FrameSizes,   \* sizes of gen.generate_dataframe(n)
           ProbeSizes,   \* sizes of direct reader.get_probe(n)
           Ops,          \* public operations allowed in histories
           MaxOps,       \* public operations per history
@@ -290,7 +291,7 @@ FRStop ==                           \* StopIteration: finalize, load_patches
 ---------------------------------------------------------------------------
 
 SomeCall   == \E n \in CallSizes : Call(n)
-SomeFrame  == \E n \in CallSizes : Frame(n)
+SomeFrame  == \E n \in FrameSizes : Frame(n)
 SomeReseed == \E s \in Seeds \cup {0} : Reseed(s)
 SomeProbe  == \E n \in ProbeSizes : Probe(n)
 
